@@ -11,6 +11,7 @@ import ErdosVerif.Driver.TaskGraph
 import ErdosVerif.Driver.Greedy
 import ErdosVerif.Driver.Release
 import ErdosVerif.Driver.MipIlp
+import ErdosVerif.Driver.MipIlpBatch
 import ErdosVerif.Driver.MipTetri
 import ErdosVerif.Driver.MipZ3
 import ErdosVerif.Driver.Clockwork
@@ -32,6 +33,7 @@ def dispatch (line : String) : Json :=
     | .ok "greedy" => Greedy.handle j
     | .ok "release" => Release.handle j
     | .ok "mip_ilp" => MipIlp.handle j
+    | .ok "mip_ilp_batch" => MipIlpBatch.handle j
     | .ok "mip_tetri" => MipTetri.handle j
     | .ok "mip_z3" => MipZ3.handle j
     | .ok "clockwork" => Clockwork.handle j
